@@ -1,7 +1,8 @@
 #!/bin/bash
-# wave 4: own-property check (C12-w4F2m2 additionally under C11, whose faults trigger it)
+# wave 9: own-property check (plus the history check for two changes that need a call sequence)
+export VERIF_REPLAY_DIR=/tmp/run_seed.replays VERIF_EVIDENCE_DIR=/tmp/run_seed.evidence
 cd /verif
-declare -A EXTRA=()
+declare -A EXTRA=([C03-w9m1]=C13 [C05-w9m2]=C13)
 for d in seeded/*-w9m*/; do
   id=$(basename $d); prop=${id%%-*}
   echo "{" > $d/result.tmp; first=1
